@@ -297,7 +297,7 @@ class _Gen:
         if t == "yf":
             f = self.func(s[2])
             tgt = "v%d = " % s[1] if s[1] is not None else ""
-            return [p + "%syield from %s(_M, _H, _LOG, _gid)" % (tgt, f)]
+            return [p + "%syield from _keep(%s(_M, _H, _LOG, _gid))" % (tgt, f)]
         if t == "yfh":
             tgt = "v%d = " % s[1] if s[1] is not None else ""
             return [p + "%syield from _hole(_H, %d)" % (tgt, s[2])]
@@ -336,6 +336,11 @@ def _hole(H, h):
     return x
 
 
+def _keep(g):
+    KEEP.append(g)
+    return g
+
+
 _CACHE = {}
 
 
@@ -350,7 +355,7 @@ def compile_prog(prog):
     f = _CACHE.get(key)
     if f is None:
         src, top = source(prog)
-        ns = {"_EXC": EXC, "_name": exc_name, "_hole": _hole, "RunEngineControlException": RunEngineControlException}
+        ns = {"_EXC": EXC, "_name": exc_name, "_hole": _hole, "_keep": _keep, "RunEngineControlException": RunEngineControlException}
         exec(compile(src, "<dsl>", "exec"), ns)
         f = ns[top]
         if len(_CACHE) > 200000:
@@ -364,7 +369,14 @@ def make_gen(prog, gid=0, log=None, holes=None):
     (gid, 'send', v) / (gid, 'throw', class name); the first resumption logs (gid, 'start', None)."""
     f = compile_prog(prog)
     log = log if log is not None else []
-    return f(MSGS, holes if holes is not None else [], log, gid)
+    g = f(MSGS, holes if holes is not None else [], log, gid)
+    KEEP.append(g)      # finalisation by the GC (a second GeneratorExit) must not land inside a driver step
+    if len(KEEP) > 50000:
+        del KEEP[:25000]
+    return g
+
+
+KEEP = []
 
 
 # ------------------------------------------------------------------------------ driver
